@@ -39,6 +39,11 @@ structure Rule where
       *callback*, the tube of the callback's position being retired when it reaches 0 (false: a
       k-mer holding a letter outside the alphabet gets no callback, so the countdown runs late) -/
   tickByPosition : Bool := true
+  /-- the tube list between two calls of `Filter` on one `*Filter`: `f.tubes = make([]tubeState,
+      maxActiveTubes)` before every scan and `f.tubes = nil` after it (true); or allocated only when
+      `len(f.tubes) != maxActiveTubes` and kept (false — the variant in which a scan starts from
+      whatever the previous scan left in the tubes) -/
+  remakeTubes : Bool := true
   deriving Repr, DecidableEq
 
 /-- the pinned tree -/
@@ -222,24 +227,68 @@ def mkCfg (rule : Rule) (k tlen : Nat) (p : Params) (selfAlign complement : Bool
     selfAlign, complement,
     cap := (tlen + (p.tubeOffset + p.maxError) - 1) / p.tubeOffset + 1 }
 
-/-- `Filter(query, selfAlign, complement, morass)`: the hits in push order -/
+/-- the body of `Filter` from the scan on, started on the tube list `tubes0`: the result (hits in
+    push order) and the tube list it leaves in `f.tubes` if nothing resets it -/
+def scanFrom (rule : Rule) (lk : Lookup) (ix : Biogo.Kmer.Index) (p : Params) (query : List UInt8)
+    (selfAlign complement : Bool) (tubes0 : Array Tube) : Except FErr (List Hit) × Array Tube :=
+  let tubeWidth := p.tubeOffset + p.maxError
+  let c := mkCfg rule ix.k ix.seq.length p selfAlign complement
+  let it := Biogo.Kmer.forEachKmer lk ix.k query 0 query.length
+  let l0 : Loop := { st := { tubes := tubes0, hits := [] }, ticker := tubeWidth }
+  let l := it.calls.foldl (fun l call => onKmer c l call.1 (targetPositions ix call.2)) l0
+  if it.err then (.error .iter, l.st.tubes)
+  else
+    -- `tick(query.Len() - f.k + 1)` (an `int` ≤ 0 retires nothing, like the truncated `Nat`)
+    let l := if rule.tickByPosition then tick c l (query.length + 1 - ix.k) else l
+    let st := tubeEnd c l.st (query.length - 1)
+    let (tubeFrom, tubeTo) := flushRange c query.length
+    let st := flushLoop c ((tubeTo + 1 - tubeFrom).toNat) tubeFrom st
+    (if st.panic then .error .panic else .ok st.hits.reverse, st.tubes)
+
+/-- `Filter(query, selfAlign, complement, morass)` on a fresh tube list: the hits in push order -/
 def filter (rule : Rule) (lk : Lookup) (ix : Biogo.Kmer.Index) (p : Params) (query : List UInt8)
     (selfAlign complement : Bool) : Except FErr (List Hit) :=
-  let tubeWidth := p.tubeOffset + p.maxError
   if p.tubeOffset < p.maxError then .error .offsetLtError
   else if p.tubeOffset = 0 then .error .panic
   else
     let c := mkCfg rule ix.k ix.seq.length p selfAlign complement
-    let it := Biogo.Kmer.forEachKmer lk ix.k query 0 query.length
-    let l0 : Loop := { st := { tubes := Array.replicate c.cap default, hits := [] }, ticker := tubeWidth }
-    let l := it.calls.foldl (fun l call => onKmer c l call.1 (targetPositions ix call.2)) l0
-    if it.err then .error .iter
-    else
-      -- `tick(query.Len() - f.k + 1)` (an `int` ≤ 0 retires nothing, like the truncated `Nat`)
-      let l := if rule.tickByPosition then tick c l (query.length + 1 - ix.k) else l
-      let st := tubeEnd c l.st (query.length - 1)
-      let (tubeFrom, tubeTo) := flushRange c query.length
-      let st := flushLoop c ((tubeTo + 1 - tubeFrom).toNat) tubeFrom st
-      if st.panic then .error .panic else .ok st.hits.reverse
+    (scanFrom rule lk ix p query selfAlign complement (Array.replicate c.cap default)).1
+
+/-! ### usage histories: one `*Filter`, many calls of `Filter`
+
+What a `*Filter` carries from one call to the next.  `New` sets `ki`, `target`, `minMatch`,
+`maxError`, `tubeOffset`, and nothing assigns them again; `Filter` assigns `selfAlign`, `complement`,
+`morass`, `k`, `minKmersPerHit`, `maxKmerDist` at its head, before any use (regenerated fact
+`Biogo.Generated.FilterFacts.perCallFields`).  What is left is `f.tubes`. -/
+
+/-- the state of a `*Filter` between calls: `f.tubes` (`nil` = empty) -/
+structure FState where
+  tubes : Array Tube := #[]
+  deriving Repr
+
+/-- after `filter.New` -/
+def FState.new : FState := {}
+
+/-- `Filter(query, selfAlign, complement, morass)` on a `*Filter` in state `prev`: the result and the
+    state it leaves.  An error return leaves `f.tubes` as it is at that point (the two parameter
+    errors come before it is touched). -/
+def filterFrom (rule : Rule) (lk : Lookup) (ix : Biogo.Kmer.Index) (p : Params) (prev : FState)
+    (query : List UInt8) (selfAlign complement : Bool) : Except FErr (List Hit) × FState :=
+  if p.tubeOffset < p.maxError then (.error .offsetLtError, prev)
+  else if p.tubeOffset = 0 then (.error .panic, prev)
+  else
+    let c := mkCfg rule ix.k ix.seq.length p selfAlign complement
+    let tubes0 :=
+      if rule.remakeTubes then Array.replicate c.cap default
+      else if prev.tubes.size ≠ c.cap then Array.replicate c.cap default else prev.tubes
+    let r := scanFrom rule lk ix p query selfAlign complement tubes0
+    match r.1 with
+    | .error e => (.error e, { tubes := r.2 })
+    | .ok hs => (.ok hs, { tubes := if rule.remakeTubes then #[] else r.2 })
+
+/-- the state after a history of calls `(query, selfAlign, complement)` on a new `*Filter` -/
+def afterHistory (rule : Rule) (lk : Lookup) (ix : Biogo.Kmer.Index) (p : Params)
+    (calls : List (List UInt8 × Bool × Bool)) : FState :=
+  calls.foldl (fun s call => (filterFrom rule lk ix p s call.1 call.2.1 call.2.2).2) FState.new
 
 end Biogo.Filter
